@@ -12,7 +12,7 @@ RULE = ('random molecules x partitions in which a random subset of the cut bonds
         'is cloned into the neighbouring fragment, clone and original carry a uniquely labelled ! pair): several shared '
         'atoms per fragment, atoms shared 3+ ways, shared aromatic ring atoms, fragments consisting only of a shared atom, '
         'shared atoms with ordinary descriptors, random base-graph spelling, two such molecules in one base graph joined by '
-        'order-0 edges only (string and caller-made graph, edge list shuffled). Oracle: overlapping description == disjoint '
+        'order-0 edges only (string and caller-made graph, edge list shuffled); 4 % small E/Z-marked alkenes one of whose double-bond atoms is shared, the slash-marked substituent written in the other fragment (judged on the molecule, not on the stereo class - that is C15). Oracle: overlapping description == disjoint '
         'description == generator ground truth (isomorphism on element, charge, H count, orders); atom count = sum of '
         'fragment atoms - shared pairs + hydrogens; every atom, traced through its mapping entries to the generator atom it '
         'stems from, belongs to exactly the coarse nodes the generator put it in. distinct = (feature set, #heavy, '
@@ -33,6 +33,10 @@ def cases(seed, tier, shard, nshards):
     rng = random.Random(f'{seed}:C10:{tier}:{shard}')
     made = 0
     while made < SIZES[tier] // nshards:
+        if rng.random() < 0.04:
+            made += 1
+            yield stereo_shared_case(rng)
+            continue
         if rng.random() < 0.12:
             # sharing on two levels of one hierarchy (a merge on one level must not leak into the next)
             c = None
@@ -57,6 +61,44 @@ def cases(seed, tier, shard, nshards):
             c = two_copies(rng, c)
         made += 1
         yield c
+
+
+def stereo_shared_case(rng):
+    """X/C=C/Y (optionally with tails) in which one double-bond atom is shared: the copy next to the double bond sits in one
+    fragment, the copy carrying the slash-marked substituent in the other; either fragment may be listed first"""
+    x, y = rng.choice(['F', 'Cl', 'Br', 'C', 'CC', 'OC']), rng.choice(['F', 'Cl', 'Br', 'C', 'CC', 'CO'])
+    s1, s2 = rng.choice(['/', '\\']), rng.choice(['/', '\\'])
+    third = rng.choice(['', '', '(C)', '(CC)'])
+    lab = rng.choice(['', 'a', 'x1'])
+    xr = ''.join(reversed([c for c in x])) if x in ('CC',) else {'OC': 'CO'}.get(x, x)
+    whole = f'{xr}{s1}C=C{third}{s2}{y}'
+    a = f'{xr}{s1}C=C{third}[!{lab}]'
+    b = f'[!{lab}]C{s2}{y}'
+    first = rng.random() < 0.5
+    base = '{[#A][#B]}' if first else '{[#B][#A]}'
+    items = [('A', a), ('B', b)]
+    if rng.random() < 0.5:
+        items.reverse()
+    return dict(kind='stereo_shared', string=base + '.{' + ','.join('#%s=%s' % kv for kv in items) + '}', single='{[#M]}.{#M=%s}' % whole,
+                features=['slash_mark_next_to_a_shared_atom', 'marked_copy_listed_' + ('second' if first else 'first')], nheavy=4)
+
+
+def run_stereo_shared(case):
+    contracts.clear()
+    viol = []
+    res = MC.resolve_single(case['string'])
+    ref = MC.resolve_single(case['single'])
+    if ref['error']:
+        contracts.clear()
+        return {'violations': [], 'rejected': {'uncut_spelling_rejected': 1}, 'nontrivial': False, 'cls': 'stereo_shared_rejected', 'sample': case['single']}
+    if res['error']:
+        viol.append(V('c10.shared_exception.' + res['error'].split(':')[0], f"{case['string']} raised {res['error']}; the molecule written in one piece, {case['single']}, resolves"))
+    elif res['problems'] or not M.same_molecule(res['heavy'], ref['heavy']):
+        viol.append(V('c10.shared_vs_truth', f"{case['string']} -> {M.describe(res['heavy'])} {res['problems']}; written in one piece ({case['single']}) it is {M.describe(ref['heavy'])}"))
+    elif len(res['aa']) != len(ref['aa']):
+        viol.append(V('c10.atom_count', f"{case['string']}: {len(res['aa'])} atoms, the molecule written in one piece has {len(ref['aa'])}"))
+    contracts.clear()
+    return {'violations': viol, 'nontrivial': True, 'sample': case['string'], 'cls': ('stereo_shared', tuple(case['features']))}
 
 
 def _two_copies_sub(rng, sub, zero_pairs, ctor):
@@ -123,6 +165,8 @@ def run_hierarchy(case):
 def run(case):
     if case.get('kind') == 'multilevel':
         return run_hierarchy(case)
+    if case.get('kind') == 'stereo_shared':
+        return run_stereo_shared(case)
     contracts.clear()
     viol = []
     truth = MC.truth_from_json(case['truth'])
